@@ -996,7 +996,7 @@ func main() {
 	r.Extra("jobs", len(jobs))
 	simd.Close()
 	generic.Close()
-	r.Finish("hashers: lengths at the 16/64/5552(5536)-byte thresholds × content (random, 0xFF, zero, ramp, text) × update partitions (1 call, 2, many small incl. empty calls, byte-wise, ~5552, block-aligned) × update/update_value; decoders: structured payloads (empty … >32 KiB window, distance 32768, 15-bit codes, 65535 stored boundaries) × reference encoder settings × source/destination chunking; images: own PNG writer (15 colour-type/depth combos × width 1–17 × interlace × filter), Go's png/gif encoders, test/data files. A case is distinct by (codec, setting, payload class, size, partition/chunking).")
+	r.Finish("hashers: lengths at the 16/64/5552(5536)-byte thresholds × content (random, 0xFF, zero, ramp, text) × update partitions (1 call, 2, many small incl. empty calls, byte-wise, ~5552, block-aligned) × update/update_value, plus 1 MiB runs of 0xFF/0xFE/0xFD in one call and in large pieces; decoders: structured payloads (empty … >32 KiB window, distance 32768, 15-bit codes, 65535 stored boundaries) × reference encoder settings × source/destination chunking (random-then-text mixes for LZMA2 chunk-kind switches); for deflate also the Lean mirror of std/deflate on every valid stream (wdec: bytes + bytes consumed; wdyn: the conclusion of DynRefines at every dynamic block) and on damaged streams (truncate / bit flips / byte overwrite, drop / random block type: status correspondence, no oracle); images: own PNG writer (15 colour-type/depth combos × width 1–17 × interlace × filter), Go's png/gif encoders, test/data files. A case is distinct by (codec, setting, payload class, size, partition/chunking).")
 	cdrv.Cleanup()
 }
 
